@@ -70,4 +70,9 @@ let () =
          | None -> output_string oc ("UNKNOWN " ^ f.(0) ^ "\n")
      done
    with End_of_file -> ());
-  close_out oc
+  close_out oc;
+  if Array.length Sys.argv > 2 && !Memdrv.ref_total > 0 then begin
+    let rc = open_out (Sys.argv.(2) ^ ".refcov") in
+    Printf.fprintf rc "%d %d %d\n" !Memdrv.ref_covered !Memdrv.ref_total !Memdrv.ref_bad;
+    close_out rc
+  end
